@@ -187,7 +187,7 @@ def c42(res, tier, seed):
 
     # ---- C->S: seeded random cases; they and the REAL results of every enumerated string are validated event by event
     # by Trace_GoNames (the specification's own grammars judge the real results)
-    n = 2000 if q else 120000
+    n = 2000 if q else 40000
     gen = os.path.join(scratch(), "gonames-gen-%d.ndjson" % seed)
     drv = os.path.join(scratch(), "gonames-drv-%d.ndjson" % seed)
     tr = os.path.join(scratch(), "gonames-trace-%d.ndjson" % seed)
@@ -264,7 +264,7 @@ def c40(res, tier, seed):
     tour = os.path.join(scratch(), "c40.tour")
     # fresh processes are the expensive part (0.1 s each on an idle machine, 0.3 s when it is shared)
     if q:
-        configs = [dict(Modes=["in", "fresh"], Perms="{0, 1}", MaxPlan=2, Bases="{0, 13, 28}")]
+        configs = [dict(Modes=["in", "fresh"], Perms="{0, 1}", MaxPlan=2, Bases="{0, 13, 31}")]
     else:
         bases = "{0, 2, 3, 4, 7, 9, 10, 13, 14, 20, 23, 27, 28, 29, 30, 31, 39, 41, 48, 58, 60, 62}"
         configs = [dict(Modes=["in", "fresh"], Perms="{0, 1, 2}", MaxPlan=2, Bases=bases),
@@ -280,7 +280,35 @@ def c40(res, tier, seed):
     env = {"GOMAXPROCS": "2"}
     vlib.replay_tour(res, b, "gen", tour, key=_c40_key, timeout=3000, env=env)
     n = 25 if q else 600
-    vlib.drive_and_validate(res, b, "gen", "Trace_Gen", seed, n, key=_c40_key, shards=1 if q else None, timeout=3000, env=env)
+    # C->S.  A nondeterministic generator never repeats an observation exactly, so "reproduced" means here: the same plan,
+    # executed again, yields again a history that the specification rejects.
+    gen = os.path.join(scratch(), "gen-gen-%d.ndjson" % seed)
+    tr = os.path.join(scratch(), "gen-trace-%d.ndjson" % seed)
+    harness(b, ["gen", "gen", seed, n, gen], env=env)
+    harness(b, ["exec", "gen", gen, tr], timeout=3000, env=env)
+    total, bad, _, _ = _validate("Trace_Gen", tr, shards=1 if q else None, timeout=3000)
+    log("validated %d gen histories against Trace_Gen: %d rejected" % (total, len(bad)))
+    events = list(read_ndjson(tr))
+    for i, ev in enumerate(events):
+        res.distinct.add(json.dumps(_c40_key(ev), sort_keys=True))
+        if i % 199 == 0:
+            res.sample(json.dumps(ev, sort_keys=True)[:1200])
+    if bad:
+        rp = os.path.join(scratch(), "gen-repro.ndjson")
+        with open(rp, "w") as fh:
+            for i in bad:
+                fh.write(json.dumps({k: x for k, x in events[i].items() if k != "out"}) + "\n")
+        harness(b, ["exec", "gen", rp, rp + ".out"], timeout=3000, env=env)
+        _, bad2, _, _ = _validate("Trace_Gen", rp + ".out", shards=1, timeout=3000)
+        for k, i in enumerate(bad):
+            if k in bad2:
+                res.fail(dict(events[i], _module="gen", _trace="Trace_Gen"),
+                         "trace: the specification rejects the recorded history, and again when the plan is re-executed")
+        if len(bad2) < len(bad):
+            res.notes.append("%d rejected histories were accepted when re-executed (not reported)" % (len(bad) - len(bad2)))
+    res.trace_events += total
+    res.evaluations += total
+    res.traces += total
     res.rule = ("tour: every plan of <= 2 generator runs over {in-process, fresh process} x permutations of file_to_generate (as listed, "
                 "reversed%s) on %d linked file sets with rotating parameter combinations (API level x import-path mode x annotate_code), "
                 "response and per-file digests compared; driver: random plans of 6-12 runs (1/6 in fresh processes) over all 69 linked "
@@ -290,3 +318,145 @@ def c40(res, tier, seed):
                         "the specification cannot force an iteration order, hence level exploration",
                         "requests the plugin refuses before producing a response (no go_package, MessageSet without protolegacy) are "
                         "recorded as err=new and only required to be refused consistently"]
+
+
+# ============================================================================ C41
+_STAGES = ("generated", "gofmt", "compiles", "descriptor", "wire", "json", "reflect")
+_ALLPASS = {k: True for k in _STAGES}
+
+
+def _c41_key(it, out):
+    flags = "".join("1" if out.get(k) else "0" for k in _STAGES)
+    if it["op"] == "shapes":
+        return ["shapes", it["syn"], it["level"], flags]
+    if it["op"] == "msgnames":
+        return ["msgnames", it["level"], "".join("m" if f["mem"] else "f" for f in it["fields"]), flags, out.get("dups", [])[:2]]
+    return ["schema", it["level"], it["seed"] % 7, flags, min(out.get("messages", 0), 6)]
+
+
+def _c41_fail(res, it, out, why, note):
+    """Failure(s) of one pipeline item.  A msgnames declaration that does not compile because identifiers are declared
+    twice is attributed, identifier by identifier, through the GoNamesMsg specification's explanation (why)."""
+    case = dict(it, out=out, _module="gencomp")
+    dups = out.get("dups") or []
+    if it["op"] == "msgnames" and out.get("generated") and not out.get("compiles") and dups:
+        pred = {}
+        for w in why or []:
+            pred[(w["ns"], _txt(w["n"]))] = w
+        done = set()
+        for d in dups:
+            ns, _, name = d.partition(".")
+            w = None
+            if ns == "field":                       # "X redeclared": a struct field, of M or of M_builder
+                w = pred.get(("M", name)) or pred.get(("M_builder", name))
+            elif ns in ("M", "M_builder", "pkg"):
+                w = pred.get((ns, name))
+            elif ("pkg", ns) in pred:               # a method of a type that is itself declared twice
+                w = pred[("pkg", ns)]
+            label = (w["ns"] + "." + _txt(w["n"])) if w else d
+            if label in done:
+                continue
+            done.add(label)
+            res.fail(dict(case, dup=label, cause=w["cause"] if w else "unpredicted", roles="+".join(sorted(w["roles"])) if w else "",
+                          **_msg_readable(it)), note + " (does not compile: %s declared more than once)" % label)
+        return
+    res.fail(case, note)
+
+
+@check("C41")
+def c41(res, tier, seed):
+    b = build_harness(("gen",))
+    q = tier == "quick"
+    t_shape, t_pipe = os.path.join(scratch(), "c41-shape.tour"), os.path.join(scratch(), "c41-pipe.tour")
+    kinds = ["bool", "int32", "string", "enum", "message", "group"] if q else \
+        ["bool", "int32", "sint32", "uint32", "int64", "sint64", "uint64", "sfixed32", "fixed32", "float", "sfixed64", "fixed64",
+         "double", "string", "bytes", "enum", "message", "group"]
+    runs = _parallel([
+        lambda: tlc("MC_GenSchema", cfg({"Kinds": _S(kinds)}, invariants=["Laws"], emit="Emit"), emit_to=t_shape, workers=1, timeout=1500),
+        lambda: tlc("MC_GenPipe", cfg({"Levels": _S(["open", "hybrid", "opaque"]), "Pick": '"one"' if q else '"all"'},
+                                     invariants=["Laws"], emit="Emit"), emit_to=t_pipe, workers=1, timeout=1500)])
+    res.add_tlc(runs[0], "every field shape (syntax x cardinality x kind x container x packed x lazy x default): prohibitions = generative "
+                         "grammar; presence discipline of the derived semantics")
+    res.add_tlc(runs[1], "hostile and clean message declarations: every known naming defect is exhibited by its declaration, the clean "
+                         "ones are predicted free of repeated identifiers")
+    res.exhaustive = True
+    # ---- items: the valid shapes of each syntax packed into one message, at every API level; the declarations; random schemas
+    by_syn = {}
+    for e in read_ndjson(t_shape):
+        by_syn.setdefault(e["shape"]["syn"], []).append(e)
+    items, whys = [], []
+    for syn in ("proto2", "proto3", "editions"):
+        es = by_syn.get(syn, [])
+        for lv in ("open", "hybrid", "opaque"):
+            items.append(dict(op="shapes", syn=syn, level=lv, shapes=[e["shape"] for e in es],
+                              exp=dict(_ALLPASS, presence=[e["exp"]["presence"] for e in es], packed=[e["exp"]["packed"] for e in es])))
+            whys.append(None)
+    for e in read_ndjson(t_pipe):
+        whys.append(e.pop("pred")["why"])
+        items.append(e)
+    n_tour = len(items)
+    gen = os.path.join(scratch(), "gencomp-gen-%d.ndjson" % seed)
+    harness(b, ["gen", "gencomp", seed, 3 if q else 45, gen])
+    for e in read_ndjson(gen):
+        items.append(e)
+        whys.append(None)
+    env = {} if q else {"VERIF_GEN_TWIN": "1"}
+
+    def run(its):
+        bp = os.path.join(scratch(), "gencomp-batch-%d.ndjson" % len(its))
+        with open(bp, "w") as fh:
+            fh.write(json.dumps(dict(op="batch", items=its)) + "\n")
+        harness(b, ["exec", "gencomp", bp, bp + ".out"], timeout=6000, env=env)
+        ev = next(read_ndjson(bp + ".out"))
+        if "results" not in ev.get("out", {}):
+            raise Infra("gencomp batch failed: %s" % json.dumps(ev.get("out"))[:3000])
+        return ev["out"]["results"]
+
+    t0 = time.time()
+    outs = run(items)
+    log("pipeline: %d packages generated, formatted, compiled and self-tested in %.1fs" % (len(items), time.time() - t0))
+    # ---- S->C: tour items carry the specification's expectation
+    for it, out, why in list(zip(items, outs, whys))[:n_tour]:
+        res.distinct.add(json.dumps(_c41_key(it, out), sort_keys=True))
+        if out.get("diff"):
+            _c41_fail(res, it, {k: x for k, x in out.items() if k != "diff"}, why,
+                      "tour: the generated package misses the specification on %s" % out["diff"])
+    res.sample(json.dumps({k: x for k, x in items[-1].items()}, sort_keys=True)[:600])
+    res.tour_cases += n_tour
+    res.evaluations += n_tour
+    res.traces += n_tour
+    # ---- C->S: every item (tour and random schemas) as a recorded event, judged by Trace_GenPipe
+    tr = os.path.join(scratch(), "gencomp-trace.ndjson")
+    with open(tr, "w") as fh:
+        for it, out in zip(items, outs):
+            fh.write(json.dumps(dict({k: x for k, x in it.items() if k != "exp"}, out={k: x for k, x in out.items() if k != "diff"})) + "\n")
+    total, bad, _, _ = _validate("Trace_GenPipe", tr, shards=1)
+    log("validated %d pipeline events against Trace_GenPipe: %d rejected" % (total, len(bad)))
+    drv_bad = [i for i in bad if i >= n_tour]
+    for i in bad:
+        if i < n_tour and not outs[i].get("diff"):
+            raise Infra("Trace_GenPipe rejects tour item %d that matched its expectation" % i)
+    for i in range(n_tour, len(items)):
+        res.distinct.add(json.dumps(_c41_key(items[i], outs[i]), sort_keys=True))
+    if drv_bad:
+        again = run([items[i] for i in drv_bad])
+        for i, o2 in zip(drv_bad, again):
+            if [o2.get(k) for k in _STAGES] != [outs[i].get(k) for k in _STAGES]:
+                raise Infra("pipeline item %d is not reproducible; refusing to report" % i)
+            _c41_fail(res, dict(items[i], _trace="Trace_GenPipe"), outs[i], None, "trace: the specification rejects the recorded pipeline event (reproduced)")
+    res.trace_events += total
+    res.evaluations += total - n_tour
+    res.traces += 1
+    res.extra["packages_compiled"] = sum(1 for o in outs if o.get("compiles"))
+    res.extra["messages_checked"] = sum(o.get("messages", 0) for o in outs)
+    res.extra["message_values_compared"] = sum(o.get("values", 0) for o in outs)
+    res.rule = ("tour: every valid field shape over %d kinds (TLC) packed into one message per syntax x 3 API levels; %d hostile/clean "
+                "declarations from the GoNamesMsg vocabulary; driver: %d seeded random schemas (nested messages, oneofs, maps, groups, "
+                "extensions, enums, editions features, lazy fields, > 64 fields, names that collide with generated identifiers); each "
+                "package: protoc-gen-go -> gofmt -> go build -> self-test binary (descriptor equality, wire/JSON/reflection equivalence "
+                "with dynamicpb on seeded random values); distinct = (item kind, level, stage verdicts)"
+                % (len(kinds), n_tour - 9, len(items) - n_tour))
+    res.assumptions += ["gofmt (go/format) and the Go compiler are sensors: their verdicts are recorded observations",
+                        "descriptor equality is taken in protodesc's canonical rendering of both sides (an explicit syntax=\"proto2\" is dropped by every descriptor)",
+                        "generated schemas carry no source info and no source-retention options, so their stripping is covered only trivially",
+                        "accessor methods of the generated types are not called (C29); equivalence is checked through Unmarshal/Marshal, protojson and protoreflect"]
